@@ -576,6 +576,13 @@ def generate(prop, seed, tier="quick", fault_free=False):
     if not fault_free and x.random() < 0.05:
         at = x.randrange(len(ops) + 1)
         ops = ops[:at] + [{"op": "warm", "k": x.choice([100, 300, 300, 700]), "distinct": True}] + ops[at:]
+    if not fault_free and x.random() < 0.3 and not config["reuse_instance"]:
+        # threads: two or three queries are simplified at the same time by threads of one
+        # process; after which LINE of the library another thread runs is the simulator's choice
+        helpers2 = []
+        at = x.randrange(len(ops) + 1)
+        ops = ops[:at] + [{"op": "serve_mt", "p": x.choice([0.02, 0.1, 0.3]), "seed": x.randrange(10 ** 6),
+                           "qs": [gen_query(x, names, reuse, helpers2) for _ in range(x.randint(2, 3))]}] + ops[at:]
     if not fault_free:
         # object lifetime: queries die after they were served; inside the package `id()` hands
         # the numbers of dead objects to new ones (sim/simid.py)
@@ -917,6 +924,43 @@ class Node:
                 t.join()
                 if "exc" in box:
                     raise box["exc"]
+            elif k == "serve_mt":
+                import random
+
+                from .core import func_adl_src
+                from .preempt import Preempt
+
+                asts = [parse_query(q) for q in op["qs"]]
+                refs = [self.refs_for(q) for q in op["qs"]]
+                pr = Preempt(random.Random(op["seed"]), op["p"], func_adl_src().rstrip("/") + "/func_adl/")
+                with _roomy_stack():
+                    res = pr.run([(lambda a=a: simplify(self.mod, a)) for a in asts])
+                self.stat("fault_threads_inside_the_library")
+                self.stat("thread_switches_inside_the_library", pr.switches)
+                self.events.append(f"serve_mt|{pr.switches}")
+                for q, rf, (st, val) in zip(op["qs"], refs, res):
+                    if st == "exc":
+                        if isinstance(val, Exception):
+                            self.stat("simplifier_raised")  # totality is C18's business
+                            continue
+                        raise val
+                    self.stat("served")
+                    for i, (d, r) in enumerate(zip(self.data, rf)):
+                        if r[0] != "ok":
+                            continue
+                        g = ev(val, d)
+                        if g[0] == "budget":
+                            continue
+                        self.stat("evals_compared")
+                        if g != r:
+                            # alone, the same query is simplified correctly?
+                            alone = ev(simplify(self.mod, parse_query(q)), d)
+                            hd = alone == r
+                            raise Violation("C02/history-dependent-value" if hd else "C02/value", {
+                                "history_dependent": hd, "origin": "threads", "query": q,
+                                "simplified": to_text(val), "dataset": i,
+                                "original_value": repr(r)[:200], "simplified_value": repr(g)[:200],
+                                "what": "simplified while another thread was simplifying another query"})
             elif k == "serve_bad":
                 inst = None
                 if self.case["config"].get("reuse_instance"):
